@@ -40,17 +40,38 @@ struct Case<'a> {
     label: String,
 }
 
+thread_local! {
+    /// second pass of a case: equal edges are added as ONE shared Arc (the same edge object added twice)
+    static SHARED_ARCS: std::cell::Cell<bool> = const { std::cell::Cell::new(false) };
+}
+
 fn build(c: &Case) -> Option<GS> {
     let mut g: GS = Graph::new(c.specs.clone());
     for n in &c.names {
         g.add_node(Node::from_name(n.to_string()));
     }
+    let shared = SHARED_ARCS.with(|s| s.get());
+    let mut cache: std::collections::HashMap<(usize, usize, u64), Arc<Edge<String, ()>>> = std::collections::HashMap::new();
     for &(u, v, w) in &c.edges {
-        if g.add_edge(Arc::new(Edge { u: c.names[u].to_string(), v: c.names[v].to_string(), weight: w, attributes: None })).is_err() {
+        let fresh = || Arc::new(Edge { u: c.names[u].to_string(), v: c.names[v].to_string(), weight: w, attributes: None });
+        let e = if shared { cache.entry((u, v, w.to_bits())).or_insert_with(fresh).clone() } else { fresh() };
+        if g.add_edge(e).is_err() {
             return None;
         }
     }
     Some(g)
+}
+
+fn check_case(c: &Case, with_file: bool, rec: &Recorder, cn: &mut Counters) {
+    check_case_pass(c, with_file, rec, cn);
+    let mut keys: Vec<(usize, usize, u64)> = c.edges.iter().map(|e| (e.0, e.1, e.2.to_bits())).collect();
+    keys.sort();
+    if keys.windows(2).any(|w| w[0] == w[1]) {
+        SHARED_ARCS.with(|s| s.set(true));
+        cn.inc("round_trips_with_shared_edge_objects");
+        check_case_pass(c, false, rec, cn);
+        SHARED_ARCS.with(|s| s.set(false));
+    }
 }
 
 fn edges_canon(g: &GS) -> Vec<(String, String, u64)> {
@@ -67,7 +88,7 @@ fn edges_canon(g: &GS) -> Vec<(String, String, u64)> {
     v
 }
 
-fn check_case(c: &Case, with_file: bool, rec: &Recorder, cn: &mut Counters) {
+fn check_case_pass(c: &Case, with_file: bool, rec: &Recorder, cn: &mut Counters) {
     let g = match build(c) {
         Some(g) => g,
         None => return,
@@ -76,7 +97,7 @@ fn check_case(c: &Case, with_file: bool, rec: &Recorder, cn: &mut Counters) {
     if c.edges.iter().any(|e| !e.2.is_nan()) {
         cn.inc("round_trips_with_weights");
     }
-    let desc = format!("names {:?}, edges {:?}, specs directed={} multi={} loops={}", c.names, c.edges.iter().map(|e| (c.names[e.0], c.names[e.1], e.2)).collect::<Vec<_>>(), c.specs.directed, c.specs.multi_edges, c.specs.self_loops);
+    let desc = format!("{}names {:?}, edges {:?}, specs directed={} multi={} loops={}", if SHARED_ARCS.with(|s| s.get()) { "[equal edges added as one shared Arc] " } else { "" }, c.names, c.edges.iter().map(|e| (c.names[e.0], c.names[e.1], e.2)).collect::<Vec<_>>(), c.specs.directed, c.specs.multi_edges, c.specs.self_loops);
     let mk = |clause: &str, call: &str, detail: String| {
         let mut snip = String::from("use graphrs::*; use std::sync::Arc;\n#[test]\nfn replay() {\n");
         snip.push_str(&format!("    let mut g: Graph<String, ()> = Graph::new(GraphSpecs {{ directed: {}, multi_edges: {}, self_loops: {}, ..GraphSpecs::directed() }});\n", c.specs.directed, c.specs.multi_edges, c.specs.self_loops));
